@@ -88,14 +88,38 @@ def run(pm, ctx):
                  unparse(n.target) == 'omitted_caller']
         from ..dataflow import defs as _defs
         dd = _defs(g.node)
-        srcs = [unparse(loops[0].iter)] if loops else []
-        for nm in [x.id for x in ast.walk(loops[0].iter) if isinstance(x, ast.Name)] if loops else []:
-            srcs.extend(unparse(v) for v in dd.all_values(nm))
-        ok = len(loops) == 1 and call_name(loops[0].iter) == 'sorted' and \
-            any('{None}' in t for t in srcs)
-        ctx.check('C13-R1', ok, '%s: one table set per caller incl. the public (None) caller, in '
-                  'sorted order' % g.short, g.loc,
-                  msg='%s no longer iterates sorted(callers | {None})' % g.short,
+        # def-use closure of the iterable (through locals, any depth): the set of callers must
+        # contain the type's own callers and the public (None) caller.  Ordering is C12's
+        # concern, not this property's.
+        srcs, seen_n, todo = [], set(), [loops[0].iter] if loops else []
+        while todo:
+            e = todo.pop()
+            srcs.append(unparse(e))
+            for x in ast.walk(e):
+                if isinstance(x, ast.Name) and x.id not in seen_n:
+                    seen_n.add(x.id)
+                    todo.extend(dd.all_values(x.id))
+                if isinstance(x, ast.Call) and isinstance(x.func, ast.Attribute) and \
+                        x.func.attr in ('extend', 'update', 'append', 'add'):
+                    pass
+        # in-place growth of the iterated collection counts as part of it
+        if loops:
+            for n in own_nodes(g.node):
+                if isinstance(n, ast.Call) and isinstance(n.func, ast.Attribute) and \
+                        n.func.attr in ('extend', 'update') and \
+                        isinstance(n.func.value, ast.Name) and n.func.value.id in seen_n:
+                    for a in n.args:
+                        srcs.append(unparse(a))
+                        for x in ast.walk(a):
+                            if isinstance(x, ast.Name) and x.id not in seen_n:
+                                seen_n.add(x.id)
+                                srcs.extend(unparse(v) for v in dd.all_values(x.id))
+        ok = len(loops) == 1 and any('{None}' in t for t in srcs) and \
+            any('get_all_omitted_callers()' in t for t in srcs)
+        ctx.check('C13-R1', ok, '%s: one table set per caller of the type, incl. the public (None) '
+                  'caller' % g.short, g.loc,
+                  msg='%s no longer iterates the type\'s callers together with the public (None) '
+                      'caller' % g.short,
                   key='C13-R1|%s|callers' % g.qualname)
         pub = [n for n in own_nodes(g.node) if isinstance(n, ast.Assign) and
                unparse(n.targets[0]) == 'is_public']
